@@ -883,6 +883,40 @@ func genC01(g *G) {
 		nsh = 8
 	}
 	genC01Exhaustive(g, g.Scale(3, 5), c01Shard()%nsh, nsh)
+	// "touch every present key after a shrink": at balance factors whose delete-side rebuild never fires
+	// (max*β < 1000) most keys of a bulk-loaded or grown tree are removed, so that survivors lie deeper than the
+	// depth limit of the shrunk tree; then EVERY surviving key is Added again and Replaced (no-op insertions of a
+	// present key that start beyond the limit), observing after each.  Round-6 seeds: a rebuild started by such an
+	// insertion whose new root is dropped.
+	for i := 0; i < g.Scale(60, 400); i++ {
+		β := []int{0, 0, 1, 2}[g.Intn(4)]
+		n := 9 + g.Intn(40)
+		keys := g.R.Perm(n)
+		ops := []string{"reset nat"}
+		if g.Chance(1, 2) {
+			ks := make([]string, n)
+			for j, k := range keys {
+				ks[j] = fmt.Sprint(k)
+			}
+			ops = append(ops, fmt.Sprintf("new 0 %d %s", β, strings.Join(ks, " ")))
+		} else {
+			ops = append(ops, fmt.Sprintf("new 0 %d", β))
+			for _, k := range keys {
+				ops = append(ops, fmt.Sprintf("add 0 %d", k))
+			}
+		}
+		gone := map[int]bool{}
+		for _, k := range g.R.Perm(n)[:n*(55+g.Intn(35))/100] {
+			ops = append(ops, fmt.Sprintf("remove 0 %d", k))
+			gone[k] = true
+		}
+		for _, k := range g.R.Perm(n) {
+			if !gone[k] {
+				ops = append(ops, fmt.Sprintf("%s 0 %d", g.Pick("add", "replace"), k))
+			}
+		}
+		g.Case(ops)
+	}
 	cases := g.Scale(200, 700)
 	for i := 0; i < cases; i++ {
 		g.Case(genC01History(g, g.Scale(300, 1200)))
